@@ -206,12 +206,21 @@ fn inputs() -> Vec<Vec<u8>> {
         }
         b
     };
+    // every call carries different header field values, so that anything remembered from one
+    // call (a first tunnel id, a last Ns, a cached length) shows in the digest of another
+    let ctl = |ids: [u16; 4], body: &[u8]| {
+        let mut v = gen::control_header(spec::F_CANON_CONTROL, (12 + body.len()) as u16, ids[0], ids[1], ids[2], ids[3]);
+        v.extend_from_slice(body);
+        v
+    };
+    let mut data = [&[0xc2u8 | 0x10, 0x20][..], &gen::consistent_data_body(0xd220, &[0xa1, 0xa2, 0xa3], 1)].concat();
+    data[4] = 0x7e; // tunnel id of the data message differs from every control message's
     vec![
-        gen::control_message(&rec(&["message_type", "u16", "utf8"])),
-        gen::control_message(&rec(&["message_type", "vendor", "bad_utf8", "truncated"])),
-        gen::control_message(&gen::avp_record(0x01, 0, 0, &[0, 0])),
-        gen::control_message(&[]),
-        [&[0xc2u8 | 0x10, 0x20][..], &gen::consistent_data_body(0xd220, &[0xa1, 0xa2, 0xa3], 1)].concat(),
+        ctl([0x0102, 0x0304, 0x0506, 0x0708], &rec(&["message_type", "u16", "utf8"])),
+        ctl([0x1112, 0x1314, 0x1516, 0x1718], &rec(&["message_type", "vendor", "bad_utf8", "truncated"])),
+        ctl([0x2122, 0x2324, 0x2526, 0x2728], &gen::avp_record(0x01, 0, 0, &[0, 0])),
+        ctl([0x3132, 0x3334, 0x3536, 0x3738], &[]),
+        data,
         rec(&["message_type", "unknown_attr", "hidden", "bad_error_type", "stray"]),
     ]
 }
@@ -219,10 +228,10 @@ fn inputs() -> Vec<Vec<u8>> {
 fn control_value() -> Message<Vec<u8>> {
     bridge::message_to_crate(&SMessage::Control {
         length: 0,
-        tid: gen::TID,
-        sid: gen::SID,
-        ns: gen::NS,
-        nr: gen::NR,
+        tid: 0x4142,
+        sid: 0x4344,
+        ns: 0x4546,
+        nr: 0x4748,
         avps: vec![SAvp::Plain { attr: 0, val: SVal::MessageType(2) }, vgen::canonical(8), vgen::canonical(1)],
     })
     .unwrap()
@@ -232,9 +241,9 @@ fn data_value() -> Message<Vec<u8>> {
     bridge::message_to_crate(&SMessage::Data {
         prio: true,
         length: Some(17),
-        tid: gen::TID,
-        sid: gen::SID,
-        ns_nr: Some((gen::NS, gen::NR)),
+        tid: 0x5152,
+        sid: 0x5354,
+        ns_nr: Some((0x5556, 0x5758)),
         offset: None,
         data: vec![1, 2, 3],
     })
@@ -512,6 +521,71 @@ fn silence_sweep(ctx: &mut Ctx) {
     for i in 0..N_CALLS {
         let _ = call(i, &NoTick);
         n += 1;
+    }
+    // render every error variant for every payload value (Display must be silent too)
+    {
+        use rl2tp::common::DecodeError as E;
+        for x in 0..=0xffffu16 {
+            let _ = guarded(|| {
+                for e in [
+                    E::IncompleteAVP(x),
+                    E::UnknownMessageType(x),
+                    E::InvalidUtf8(x),
+                    E::InvalidResultCodeErrorType(x),
+                    E::AVPReadError(x),
+                    E::InvalidAVPLength(x),
+                    E::UnknownAvp(x),
+                    E::InvalidOriginalAVPLength(x),
+                    E::UnsupportedVendorId(x),
+                    E::InvalidOffset(x),
+                    E::InvalidVersion(x as u8),
+                ] {
+                    sink_str += e.to_string().len() + format!("{e:?}").len();
+                }
+            });
+            n += 11;
+        }
+        for e in [
+            E::EmptyHiddenAVP,
+            E::MisalignedHiddenAVP,
+            E::InvalidReservedBits,
+            E::IncompleteFlags,
+            E::IncompleteDataMessageHeader,
+            E::IncompleteDataMessagePayload,
+            E::EmptyDataMessagePayload,
+            E::MessageReadError,
+            E::ForbiddenControlMessagePriority,
+            E::ForbiddenControlMessageOffset,
+            E::ControlMessageWithoutLength,
+            E::ControlMessageWithoutNsNr,
+            E::IncompleteControlMessageHeader,
+            E::IncompleteControlMessagePayload,
+            E::ControlMessageTypeNotFirst,
+        ] {
+            sink_str += e.to_string().len();
+            n += 1;
+        }
+    }
+    // every AVP kind through its own try_read at every payload length 0..=min+2, and reveal of
+    // manufactured hidden values whose decrypted length is inconsistent
+    for attr in spec::ALL_ATTRS {
+        let min = spec::kind_of(attr).map(|k| spec::min_payload(k.0)).unwrap_or(0);
+        for len in 0..=min + 2 {
+            for class in [gen::Content::Valid, gen::Content::Ff, gen::Content::Overlong] {
+                let p = gen::payload_for(attr, len, class);
+                let _ = crate::run::decode_type(crate::run::ReaderKind::R2a, attr, &p, false);
+                let rec = gen::avp_record(0x01, 0, attr, &p);
+                let _ = crate::run::decode_avps(crate::run::ReaderKind::R2a, &rec, false);
+                n += 2;
+            }
+        }
+        for lo in [0u16, 5, 6, 7, 20, 21, 22, 23, 40, 1023, 1024, 0xffff] {
+            let plain = [&lo.to_be_bytes()[..], &gen::payload_for(attr, 14, gen::Content::Valid)].concat();
+            let value = spec::encrypt(attr, &plain, b"k", &[1, 2, 3, 4]);
+            let h = AVP::Hidden(rl2tp::avp::types::Hidden { attribute_type: attr, value });
+            let _ = guarded(|| h.reveal(b"k", &RandomVector { value: [1, 2, 3, 4] }).map(|a| format!("{a:?}")).map_err(|e| e.to_string()));
+            n += 1;
+        }
     }
     ctx.executions += n;
     ctx.states += n;
